@@ -14,11 +14,12 @@ import (
 )
 
 type TokSpec struct {
-	Prov   string // sshpop (proof-of-possession token of the CA's SSH host certificate; Aud = sshrenew | sshrekey | sshrevoke) | jwk | jwk2 | k8s | oidc (id = nonce; JTI is the nonce) | admintok (x5c admin token) | renewtok (x5cInsecure renew token)
-	JTI    string // "r" = random, "-" = no jti claim, anything else = that literal (shared between tokens)
+	Prov   string // azt | azr (Azure with / without trust on first use; JTI names the VM) | gcpt | gcpr (GCP likewise; JTI names the instance) | sshpop (proof-of-possession token of the CA's SSH host certificate; Aud = sshrenew | sshrekey | sshrevoke) | jwk | jwk2 | k8s | oidc (id = nonce; JTI is the nonce) | admintok (x5c admin token) | renewtok (x5cInsecure renew token)
+	JTI    string // "r" = random, "R" = random and longer than 255 bytes, "-" = no jti claim, anything else = a label shared between tokens (labels starting with "long": > 255 bytes)
 	IatOff int    // seconds the iat lies before the mint instant
 	NoIat  bool   // no iat claim
 	Defect string // "" | badsig | expired | aud | kid | garbage
+	Issuer string // renewtok: the provisioner that issued the certificate the token is about ("" = jwk | acme | k8s | azt | azr | gcpt | gcpr | oidc | noext)
 	Aud    string // sign | revoke | sshsign (JWK token with step.ssh options) | sshrenew | sshrekey | sshrevoke (sshpop)
 }
 
@@ -68,11 +69,16 @@ func (e *env) mintTok(ts *TokSpec, jtis map[string]string) *minted {
 		jti = randHex()
 	case "-":
 		jti = ""
+	case "R":
+		jti = randHex() + strings.Repeat("r", 224+len(ts.Prov)) // a unique id of 256..262 bytes
 	default:
 		if v, ok := jtis[jti]; ok {
 			jti = v
 		} else {
 			v = "shared-" + jti + "-" + randHex()
+			if strings.HasPrefix(jti, "long") {
+				v += strings.Repeat("n", 300) // ids beyond 255 bytes (a limit of SQL key columns) are ids all the same
+			}
 			jtis[jti] = v
 			jti = v
 		}
@@ -90,6 +96,60 @@ func (e *env) mintTok(ts *TokSpec, jtis map[string]string) *minted {
 	}
 	allMethods := []string{"sign", "revoke", "sshsign", "sshrenew", "sshrekey", "sshrevoke"}
 	switch ts.Prov {
+	case "azt", "azr":
+		// an Azure managed-identity token; the token id is the hash of xms_mirid (the VM), or reuse is allowed
+		vm := jti
+		if vm == "" {
+			vm = "vm-anon"
+		}
+		mirid := "/subscriptions/sub1/resourceGroups/rg1/providers/Microsoft.Compute/virtualMachines/" + vm
+		delete(claims, "jti")
+		tenant := map[string]string{"azt": "tenant-tofu", "azr": "tenant-reuse"}[ts.Prov]
+		claims["iss"], claims["aud"], claims["tid"] = e.oidcSrv.URL, "https://management.azure.com/", tenant
+		claims["xms_mirid"], claims["oid"], claims["sub"] = mirid, "oid-"+vm, "sub-"+vm
+		claims["nbf"], claims["exp"] = now.Add(-time.Minute).Unix(), exp.Unix()
+		key := e.oidcKey.Key
+		switch ts.Defect {
+		case "badsig":
+			key = e.jwk2.Key
+		case "aud", "kid":
+			claims["aud"] = "https://other.example.com/" // found through tid, refused by the validation
+		}
+		m.str = mintHdr(key, "ES256", map[string]any{"kid": e.oidcKey.KeyID}, claims)
+		m.valid["sign"] = ts.Defect == "" && (ts.NoIat || ts.IatOff < 3000)
+		if ts.Prov == "azr" {
+			m.idr, m.exempt = "u", true
+		} else {
+			m.idr = "k" + c.X(sha256hex(mirid))
+		}
+	case "gcpt", "gcpr":
+		inst := jti
+		if inst == "" {
+			inst = "inst-anon"
+		}
+		delete(claims, "jti")
+		claims["iss"], claims["aud"] = "https://accounts.google.com", "https://ca.verif.test/1.0/sign#gcp/"+ts.Prov
+		claims["sub"], claims["email"], claims["azp"] = "sa-"+inst, "sa@project.iam.gserviceaccount.com", "sa-"+inst
+		claims["nbf"], claims["exp"] = now.Add(-time.Minute).Unix(), exp.Unix()
+		claims["google"] = map[string]any{"compute_engine": map[string]any{"instance_id": inst, "instance_name": "n-" + inst, "project_id": "proj", "zone": "z1",
+			"instance_creation_timestamp": now.Add(-time.Hour).Unix()}}
+		key := e.oidcKey.Key
+		switch ts.Defect {
+		case "badsig":
+			key = e.jwk2.Key
+		case "aud":
+			claims["aud"] = "https://ca.verif.test/1.0/sign#gcp/nosuch"
+			m.lookupOK = false
+		case "kid":
+			claims["iss"] = "https://accounts.example.com" // found through the audience fragment, refused by the validation
+		}
+		m.str = mintHdr(key, "ES256", map[string]any{"kid": e.oidcKey.KeyID}, claims)
+		m.valid["sign"] = ts.Defect == "" && (ts.NoIat || ts.IatOff < 3000)
+		if ts.Prov == "gcpr" {
+			m.idr = "sha-of-presented"
+		} else {
+			m.idr = "k" + c.X(sha256hex("gcp/gcpt."+inst))
+		}
 	case "sshpop":
 		aud := ts.Aud
 		if aud != "sshrenew" && aud != "sshrekey" && aud != "sshrevoke" {
@@ -163,10 +223,15 @@ func (e *env) mintTok(ts *TokSpec, jtis map[string]string) *minted {
 			if ts.Defect == "aud" {
 				claims["aud"] = "https://ca.verif.test/1.0/sign"
 			}
-			m.str = mintHdr(key, "ES256", map[string]any{"x5cInsecure": e.chain()}, claims)
+			m.str = mintHdr(key, "ES256", map[string]any{"x5cInsecure": e.chainOf(ts.Issuer)}, claims)
 			m.valid["renewtoken"] = ts.Defect == "" || ts.Defect == "kid"
 		}
 		m.idr = "k" + c.X(jti)
+		// since 42a611b AuthorizeRenewToken records a renew token under its own jti (payload hash when it has none), whatever
+		// provisioner issued the certificate (before: the certificate's provisioner's GetTokenID: D12d)
+		if ts.Prov == "renewtok" && ts.Issuer == "noext" {
+			m.lookupOK = false // Authority.LoadProvisionerByCertificate finds no provisioner: refused before the token is recorded
+		}
 	case "k8s":
 		claims["iss"] = "kubernetes/serviceaccount"
 		claims["kubernetes.io/serviceaccount/namespace"] = "default"
@@ -383,7 +448,11 @@ func runHist(h *Hist) (string, string) {
 			if m.hasIat {
 				iat = strconv.FormatInt(m.iat, 10)
 			}
-			reqIn[t] = fmt.Sprintf("%s:%s:%s:%s:%s:%s", c.B(m.lookupOK), iat, m.idr, c.X(sha256hex(presented)), c.B(rq.Skip), c.B(m.valid[rq.Method]))
+			idr := m.idr
+			if idr == "sha-of-presented" { // GCP without trust on first use: the id is the hash of the string as presented
+				idr = "k" + c.X(sha256hex(presented))
+			}
+			reqIn[t] = fmt.Sprintf("%s:%s:%s:%s:%s:%s", c.B(m.lookupOK), iat, idr, c.X(payloadSha(presented)), c.B(rq.Skip), c.B(m.valid[rq.Method]))
 			starts[t] <- struct{}{}
 			ev := waitFor(t)
 			old[t] = !h.DB && !h.NoChk && m.hasIat && m.iat < curStart
@@ -507,6 +576,10 @@ func cornerHists() []*Hist {
 		hs = append(hs, &Hist{DB: dbm, Toks: []TokSpec{good, {Prov: "k8s", JTI: "r"}, {Prov: "jwk", JTI: "a", Aud: "sign"}, {Prov: "jwk2", JTI: "a", Aud: "sign"}},
 			Reqs:  []ReqSpec{{0, 0, "sign", false}, {0, 0, "signid", true}, {0, 0, "signid", true}, {1, 0, "sign", false}, {1, 0, "sign", false}, {2, 0, "sign", false}, {3, 0, "sign", false}},
 			Sched: seqSched(7)})
+		// ids longer than 255 bytes are ids like any other: replay refused, two tokens sharing one refused, for jti and nonce
+		hs = append(hs, &Hist{DB: dbm, Toks: []TokSpec{{Prov: "oidc", JTI: "longn"}, {Prov: "oidc", JTI: "longn"}, {Prov: "oidc", JTI: "R"}, {Prov: "jwk", JTI: "longj", Aud: "sign"}, {Prov: "jwk2", JTI: "longj", Aud: "sign"}},
+			Reqs:  []ReqSpec{{0, 0, "sign", false}, {0, 1, "sign", false}, {1, 0, "sign", false}, {2, 0, "sign", false}, {2, 4, "sign", false}, {3, 0, "sign", false}, {4, 0, "sign", false}},
+			Sched: seqSched(7)})
 		// OIDC through Authorize: the nonce is the id (replay, same nonce in another token, no nonce => hash of the string)
 		hs = append(hs, &Hist{DB: dbm, Toks: []TokSpec{{Prov: "oidc", JTI: "r"}, {Prov: "oidc", JTI: "n"}, {Prov: "oidc", JTI: "n"}, {Prov: "oidc", JTI: "-"}},
 			Reqs:  []ReqSpec{{0, 0, "sign", false}, {0, 0, "sign", false}, {1, 0, "sign", false}, {2, 0, "sign", false}, {3, 0, "sign", false}, {3, 1, "sign", false}, {0, 0, "revoke", false}},
@@ -516,6 +589,21 @@ func cornerHists() []*Hist {
 		hs = append(hs, &Hist{DB: dbm, Toks: []TokSpec{{Prov: "renewtok", JTI: "r"}, {Prov: "admintok", JTI: "r"}, {Prov: "renewtok", JTI: "z"}, {Prov: "jwk", JTI: "z", Aud: "sign"}},
 			Reqs:  []ReqSpec{{0, 0, "renewtoken", false}, {0, 0, "renewtoken", false}, {1, 0, "admin", false}, {1, 0, "admin", false}, {0, 0, "renewtoken", false}, {1, 0, "admin", false}, {2, 0, "renewtoken", false}, {3, 0, "sign", false}},
 			Sched: []int{0, 1, 1, 0, 1, 0, 2, 3, 2, 3, 3, 2, -1, 4, 4, 4, 5, 5, 5, 6, 6, 6, 7, 7, 7}})
+		// cloud identity tokens through Authorize: Azure with trust on first use (one certificate per VM: a second token of the same VM is
+		// refused), Azure without (reuse allowed), GCP with (per instance) and without (per token string)
+		hs = append(hs, &Hist{DB: dbm, Toks: []TokSpec{{Prov: "azt", JTI: "vm1"}, {Prov: "azt", JTI: "vm1"}, {Prov: "azt", JTI: "vm2"}, {Prov: "azr", JTI: "vm1"},
+			{Prov: "gcpt", JTI: "i1"}, {Prov: "gcpt", JTI: "i1"}, {Prov: "gcpr", JTI: "i1"}, {Prov: "gcpr", JTI: "i1"}},
+			Reqs: []ReqSpec{{0, 0, "sign", false}, {0, 0, "sign", false}, {1, 0, "sign", false}, {2, 0, "sign", false}, {3, 0, "sign", false}, {3, 0, "sign", false},
+				{4, 0, "sign", false}, {5, 0, "sign", false}, {6, 0, "sign", false}, {6, 0, "sign", false}, {7, 0, "sign", false}, {6, 1, "sign", false}},
+			Sched: seqSched(12)})
+		// renew tokens of certificates issued by each provisioner type, each presented twice: single-use for every issuer (D12d, fixed)
+		hs = append(hs, &Hist{DB: dbm, Toks: []TokSpec{{Prov: "renewtok", JTI: "r", Issuer: "acme"}, {Prov: "renewtok", JTI: "r", Issuer: "k8s"}, {Prov: "renewtok", JTI: "r", Issuer: "azt"},
+			{Prov: "renewtok", JTI: "r", Issuer: "azt"}, {Prov: "renewtok", JTI: "r", Issuer: "azr"}, {Prov: "renewtok", JTI: "r", Issuer: "gcpt"}, {Prov: "renewtok", JTI: "r", Issuer: "gcpr"},
+			{Prov: "renewtok", JTI: "r", Issuer: "oidc"}, {Prov: "renewtok", JTI: "r", Issuer: "noext"}},
+			Reqs: []ReqSpec{{0, 0, "renewtoken", false}, {0, 0, "renewtoken", false}, {1, 0, "renewtoken", false}, {1, 0, "renewtoken", false}, {2, 0, "renewtoken", false}, {3, 0, "renewtoken", false},
+				{4, 0, "renewtoken", false}, {4, 0, "renewtoken", false}, {5, 0, "renewtoken", false}, {5, 0, "renewtoken", false}, {6, 0, "renewtoken", false}, {6, 1, "renewtoken", false},
+				{7, 0, "renewtoken", false}, {7, 0, "renewtoken", false}, {8, 0, "renewtoken", false}, {8, 0, "renewtoken", false}},
+			Sched: seqSched(16)})
 		// every SSH method of Authorize burns its token: proof-of-possession tokens for renew / rekey / revoke, a JWK token for ssh sign;
 		// replayed, across a restart, presented to another method
 		hs = append(hs, &Hist{DB: dbm, Toks: []TokSpec{{Prov: "sshpop", JTI: "r", Aud: "sshrenew"}, {Prov: "sshpop", JTI: "r", Aud: "sshrekey"}, {Prov: "sshpop", JTI: "r", Aud: "sshrevoke"}, {Prov: "jwk", JTI: "r", Aud: "sshsign"}},
@@ -543,7 +631,7 @@ func genHist(r *c.Rng) *Hist {
 	nt := 1 + r.Intn(4)
 	for i := 0; i < nt; i++ {
 		ts := TokSpec{Prov: "jwk", JTI: "r", Aud: "sign"}
-		switch r.Intn(14) {
+		switch r.Intn(16) {
 		case 0:
 			ts.Prov = "jwk2"
 		case 1:
@@ -554,14 +642,19 @@ func genHist(r *c.Rng) *Hist {
 			ts.Prov = "admintok"
 		case 5:
 			ts.Prov = "renewtok"
+			ts.Issuer = c.Pick(r, []string{"", "", "acme", "k8s", "azt", "azr", "gcpt", "gcpr", "oidc", "noext"})
 		case 6, 7:
 			ts.Prov = "sshpop"
+		case 8:
+			ts.Prov = c.Pick(r, []string{"azt", "azr", "gcpt", "gcpr"})
 		}
 		switch r.Intn(8) {
 		case 0, 1:
 			ts.JTI = "-"
 		case 2:
-			ts.JTI = c.Pick(r, []string{"a", "b"})
+			ts.JTI = c.Pick(r, []string{"a", "b", "longa"})
+		case 3:
+			ts.JTI = "R"
 		}
 		switch r.Intn(10) {
 		case 0:
